@@ -51,6 +51,18 @@ def cases(rng, tier):
             var = fam + rng.choice([".o", ".r", ".o.asg"])
             out.append((G.line("fuse", fmt, var, [n, op, 0], w1 + w2), ("comm", gid, 0, n)))
             out.append((G.line("fuse", fmt, var, [n, op, 0], w2 + w1), ("comm", gid, 1, n)))
+        # simplex-only fusion (by value and in place), both orders: the in-place entry points have their own forwarding code
+        for _ in range(N // 4):
+            n = rng.choice([1, 2, 3, 4])
+            den = rng.choice([4, 8, 16, 64])
+            op = rng.choice([0, 2, 2, 3])
+            b1, u1 = G.rand_simplex(rng, n, den, rng.choice(["int", "int", "any", "vac", "dog"]))
+            b2, u2 = G.rand_simplex(rng, n, den, rng.choice(["int", "int", "any", "vac", "dog"]))
+            fam = rng.choice(G.FAMS_1D)
+            gid = CROSS_GROUPS[0]; CROSS_GROUPS[0] += 1
+            var = fam + rng.choice([".o", ".o.asg", ".o.asg"])
+            out.append((G.line("fuse_ss", fmt, var, [n, op], b1 + [u1] + b2 + [u2]), ("comm", gid, 0, n)))
+            out.append((G.line("fuse_ss", fmt, var, [n, op], b2 + [u2] + b1 + [u1]), ("comm", gid, 1, n)))
         # aliased operands: the very same object passed twice (self-fusion by reference), and folds that repeat one object
         for _ in range(N // 8):
             n = rng.choice([2, 3, 4])
